@@ -157,20 +157,22 @@ def handshake(rng, pattern):
     peer = SimPeer(env.REPO + "/tests/snapshots/default.snapshot")
     lost = {v: 0 for v in VERBS}
     side = {v: rng.choice(["c2s", "s2c"]) for v in VERBS}
+    # which segment of a status-block answer is the one that gets lost (first, second, a middle one, last)
+    seg = pattern.get("seg", rng.choice([0, 0, 1, 13, 26]))
 
     with ThreadedSession(peer=peer) as s:
         def drop(data, direction):
             c = inner(data) or b""
             if direction == "c2s":
                 v = c[:5]
-                if v in lost and side[v] == "c2s" and lost[v] < pattern.get(v, 0):
+                if v in lost and side[v] == "c2s" and "seg" not in pattern and lost[v] < pattern.get(v, 0):
                     lost[v] += 1
                     return True
             else:
                 rv = {b"SVERS": b"AVERS", b"CHCUR": b"CURCH", b"FILES": b"SFILE", b"STATV": b"STATU"}.get(c[:5])
-                if rv and side[rv] == "s2c" and lost[rv] < pattern.get(rv, 0):
-                    # lose the whole answer of this attempt (for STATV: the first segment of the chain)
-                    if rv != b"STATU" or c[5] == 0:
+                if rv and (side[rv] == "s2c" or "seg" in pattern) and lost[rv] < pattern.get(rv, 0):
+                    # lose the whole answer of this attempt (for STATV: one segment of the chain)
+                    if rv != b"STATU" or c[5] == seg:
                         lost[rv] += 1
                         return True
             return False
@@ -193,7 +195,7 @@ def handshake(rng, pattern):
                 "budget": 1 + GeckoConfig.PROTOCOL_RETRY_COUNT,
                 "tx": [{"verb": k, "n": v} for k, v in sorted(tx.items())], "gaps": gaps,
                 "gapmin": int(1000 / s.spa._SENDING_THROTTLE_RATE_PER_SECOND),
-                "pattern": {k.decode(): v for k, v in pattern.items()}}
+                "pattern": {(k.decode() if isinstance(k, bytes) else k): v for k, v in pattern.items()} | {"seg": seg}}
 
 
 def run(ctx):
@@ -229,6 +231,7 @@ def run(ctx):
     N = GeckoConfig.PROTOCOL_RETRY_COUNT
     recs = []
     pats = [{}] + [{v: N} for v in VERBS] + [{v: 1 for v in VERBS}]
+    pats += [{b"STATU": k, "seg": sg} for sg in (1, 13, 26) for k in (1, 2)]
     for _ in range(6 if ctx.quick else 120):
         pats.append({v: rng.randrange(0, N + 1) for v in VERBS})
     for p in pats:
